@@ -48,7 +48,7 @@ CLAIMED = {
         "technique": "Coq proof (case analysis over typed-value kinds; loop lemmas) + exhaustive-grid differential correspondence",
     },
     "C13": {
-        "text": ("48 theorems (Coq, no axioms) over a model of all of keywordsearches.py: max/min (plain and inverted) "
+        "text": ("58 theorems (Coq, no axioms) over a model of all of keywordsearches.py: max/min (plain and inverted) "
                  "select exactly the extremal members / exactly the others for lists of ints, of floats, of words "
                  "(lexicographic) -- the hypothesis 'is its own typed reading' is discharged for ints and floats and, "
                  "for text, reduced to 'ast.literal_eval rejects it' --, for any Array-of-Hashes and any "
@@ -59,7 +59,15 @@ CLAIMED = {
                  "Lists mixing ints with floats are outside the property's quantifier ('same-kind'); what the code "
                  "selects on them is pinned by C13_max_min_mixed_selects (the first extremal member and the later "
                  "members of the same numeric type with an equal value), the property's statement holds under the "
-                 "guard no_cross_equal (_partial) and fails without it ([5, 5.0]: _refuted).  Tie: every keyword x "
+                 "guard no_cross_equal (_partial) and fails without it ([5, 5.0]: _refuted).  Collections mixing "
+                 "numbers with text, booleans or numeric-looking text (also outside the quantifier; the comparison "
+                 "search_matches makes across kinds is no order) are pinned for every mix, lists / Array-of-Hashes / "
+                 "hash-of-hashes, by C13_max_min_kinds_selects (+_attr, _hoh): no text member ever takes the lead and "
+                 "the first numeric extremum by typed reading is selected, or from the first text member that beats "
+                 "str() of the leading number on the first lexicographic extremum of the text members is; plus the "
+                 "later members EQUALS deems equal; the split is proved unique; oracle facts (literal_eval reads "
+                 "'True'/'False', rejects the plain text, reads the numeric-looking text as the number) are "
+                 "hypotheses; the Examples are replayed on the real code.  Tie: every keyword x "
                  "inversion x parameter form through KeywordSearches.search_matches and end to end through "
                  "Processor.get_nodes."),
         "design_ref": "DESIGN.md section 4 (C13), docs/C13.md",
